@@ -406,3 +406,13 @@ Definition models_mem {A} (rows : list (bytes * A)) (ps : Z) (tok : bytes) : out
   raw_cmd (page_clamp desc rows) ps tok.
 Definition models_sql {A} (rows : list (bytes * A)) (ps : Z) (tok : bytes) : outcome A :=
   raw_cmd (page_keyset desc rows) ps tok.
+
+(* the F5 trigger of a Read request on the memory backend, from the decoded command-level token *)
+Definition read_mem_finding (len : nat) (tok : bytes) : option finding :=
+  match tok with
+  | [] => None
+  | _ => match deserialize tok with
+         | Some (u, _) => offset_finding len u
+         | None => None
+         end
+  end.
